@@ -1,0 +1,5 @@
+//go:build !verif
+
+package z80
+
+func vhook(string) {}
